@@ -52,7 +52,10 @@ RULE = ("per run a pool of small labelled graph objects (1-6 nodes, elements {C,
         "instances with different node_attrs / edge_attrs / wl1_filter / max_mappings and by the stateless helpers; op list of "
         "new_graph / drop_graph / gc / new_engine / q_iso / q_map / q_sub / q_giso / q_find. Every query is evaluated (a) on "
         "the shared objects with their history, (b) on pristine deep copies with a fresh engine, (c) by the reference; "
-        "filter on/off pairs are evaluated side by side. Non-trivial = >=1 fault (gc/drop) fired and >=1 probe hit")
+        "filter on/off pairs are evaluated side by side. Widened after eight seeded rounds: graphs derived from queried objects (copy, "
+        "deepcopy, pickle, relabel_nodes, views), caller-owned argument lists edited in place, calling conventions incl. signature defaults, "
+        "order alphabets {1,2} / {1,1.5,2} / {1.2,1.33,1.4,1.5} / (before, after) pairs, rare self-loops (clean refusal accepted), "
+        "patterns planted in 10-18 node hosts, floods of >4000 distinct labels through one engine. Non-trivial = >=1 fault (gc/drop) fired and >=1 probe hit")
 
 ELEMENTS = ["C", "O"]
 
